@@ -526,7 +526,10 @@ package builder
 //@ axiom wf-class: forall c *charClassMatcher :: {c.ranges} c != nil ==> len(c.ranges) % 2 == 0
 //@ axiom wf-rule: forall r *rule :: {r.expr} r != nil ==> IsNode(r.expr)
 //@ #if bl
-//@ axiom wf-bltable: forall c *charClassMatcher, r rune :: {c.basicLatinChars[r]} c != nil && 0 <= r && r < 128 ==> c.basicLatinChars[r] == ClassHit(c, foldC(c, r))
+// what builder.BasicLatinLookup is PROVED to emit: for case-sensitive classes the table is the general procedure.
+// For case-insensitive classes it is not (known finding F10 on the generator side), so nothing is assumed about
+// their table here and the runtime obligation "the fast path agrees with the general path" fails for them: F10b.
+//@ axiom wf-bltable: forall c *charClassMatcher, r rune :: {c.basicLatinChars[r]} c != nil && !c.ignoreCase && 0 <= r && r < 128 ==> c.basicLatinChars[r] == ClassHit(c, foldC(c, r))
 //@ #endif
 
 // ======================================================================================
